@@ -546,13 +546,30 @@ def _case_effects(fn):
             return truth(e.args[0], env)
         if isinstance(e, ast.Name) and e.id in env:
             c = env[e.id]
+            if isinstance(c, bool):
+                return c
             if c in ('NONE', 'ZERO'):
                 return False
             if c == 'NUM':
                 return True
             return None
+        if isinstance(e, ast.Subscript) and U(e.value) in mask_alias:
+            # the entry of the mask before / during this call
+            return env.get('@mask', env.get('@prev'))
         if isinstance(e, ast.Compare) and len(e.ops) == 1:
             l, r, op = e.left, e.comparators[0], e.ops[0]
+            if isinstance(op, (ast.Eq, ast.NotEq, ast.Is, ast.IsNot)) and \
+                    not (isinstance(r, ast.Constant) and r.value is None):
+                a_, b_ = truth(l, env), truth(r, env)
+                if a_ is not None and b_ is not None and (
+                        isinstance(l, ast.Subscript)
+                        or isinstance(r, ast.Subscript)
+                        or isinstance(env.get(getattr(l, 'id', None)), bool)
+                        or isinstance(env.get(getattr(r, 'id', None)),
+                                      bool)):
+                    same = a_ == b_
+                    return same if isinstance(op, (ast.Eq, ast.Is)) \
+                        else not same
             if isinstance(op, (ast.In, ast.NotIn)) and U(r) in dnames | {
                     '%s.keys()' % d for d in dnames}:
                 present = env['@case'] != 'ABSENT'
@@ -630,6 +647,10 @@ def _case_effects(fn):
                             env[t.id] = env['@case']
                     elif isinstance(v, ast.Name) and v.id in env:
                         env[t.id] = env[v.id]
+                    elif isinstance(v, (ast.Compare, ast.UnaryOp,
+                                        ast.BoolOp)) and truth(
+                            v, env) is not None:
+                        env[t.id] = truth(v, env)     # a boolean local
                     else:
                         env.pop(t.id, None)
                     continue
@@ -637,6 +658,11 @@ def _case_effects(fn):
                     if isinstance(v, ast.Constant) and isinstance(
                             v.value, bool):
                         eff['mask'] = v.value
+                        env['@mask'] = v.value
+                    elif isinstance(v, ast.Name) and isinstance(
+                            env.get(v.id), bool):
+                        eff['mask'] = env[v.id]
+                        env['@mask'] = env[v.id]
                     else:
                         tv = truth(v, env)
                         if tv is None or not (isinstance(
@@ -646,6 +672,7 @@ def _case_effects(fn):
                             raise _Top('mask value `%s` not decided'
                                        % U(v)[:50])
                         eff['mask'] = tv
+                        env['@mask'] = tv
                     continue
                 if isinstance(t, ast.Subscript) and U(t.value) in val_alias:
                     eff['vals'] = True
@@ -657,16 +684,28 @@ def _case_effects(fn):
         if over_items and case == 'ABSENT':
             out[case] = ('unchanged', False)
             continue
-        env = {'@case': case}
-        if item_value:
-            env[item_value] = case
-        eff = {}
-        run(loop.body, env, eff)
-        if eff.get('raise'):
-            out[case] = ('raises', False)
-        else:
-            out[case] = (eff.get('mask', 'unchanged'), eff.get('vals',
-                                                               False))
+        res = []
+        for prev in (False, True):       # the parameter was free / fixed
+            env = {'@case': case, '@prev': prev}
+            if item_value:
+                env[item_value] = case
+            eff = {}
+            run(loop.body, env, eff)
+            if eff.get('raise'):
+                res.append(('raises', False))
+            else:
+                m_ = eff.get('mask', 'unchanged')
+                if m_ == 'unchanged' and case != 'ABSENT':
+                    # not written: the entry keeps its previous state
+                    m_ = prev
+                res.append((m_, eff.get('vals', False)))
+        # the worse of the two histories is reported
+        want = WANT_MASK[case]
+        worst = res[0]
+        for r_ in res:
+            if r_[0] != want or (want is True and not r_[1]):
+                worst = r_
+        out[case] = worst
     return out
 
 
